@@ -1,6 +1,8 @@
 ENGINES = [
     {'name': 'E1-enum', 'path': 'mc/engine_enum.py', 'serves_properties': ['C01', 'C02', 'C04', 'C05', 'C06', 'C07', 'C08', 'C09', 'C12', 'C13', 'C14', 'C19'],
      'kind_free_text': 'sharded exhaustive enumeration of a finite input/configuration space of the real code against a reference model'},
+    {'name': 'E3-dev', 'path': 'mc/checks/c17.py', 'serves_properties': ['C13', 'C17'],
+     'kind_free_text': 'deviation-bounded / fault-point enumeration: the harness owns every environment answer (truncation point, corrupted byte, failing write, clock, consumer delay) and enumerates all runs up to a deviation bound'},
     {'name': 'E2-bfs', 'path': 'mc/engine_bfs.py', 'serves_properties': ['C03', 'C04', 'C05', 'C15', 'C16'],
      'kind_free_text': 'explicit-state breadth-first search over live implementation objects (state = replayable operation history, canonicalised from the complete vars() of the objects), level-parallel'},
 ]
@@ -92,3 +94,9 @@ CHECKS['C08'] = dict(
     technique='exhaustive enumeration of event lists with an independent SMF reference codec: saved bytes decoded by a strict reference decoder; every legal alternative encoding (running-status subsets, deviation-bounded VLQ padding and header length) loaded by the implementation',
     text='Write direction: every track of length <= 3 (4 thorough) over 20 event kinds is saved and the bytes decoded by a strict decoder written from the SMF 1.0 specification (exact chunk lengths, minimal VLQs, running status only after a channel message of equal status, sysex framing, FF 2F 00 last) and compared with the in-memory events. Read direction: for every track of length <= 3 all running-status subsets and every set of <= 2 deviations among redundant VLQ bytes and longer header chunks are encoded by the reference encoder and must load to the same messages, plain, with clip=True and with debug=True; every channel data byte replaced by 0x80/0xF7/0xFF must raise without clip and become 127 with clip. A symmetric reader+writer fault that C07 cannot see is visible here.',
     note='Trusted: mc/ref/smf.py. System common messages stored raw are accepted as a mido extension; alien chunks and SMPTE division outside the statement.')
+
+CHECKS['C17'] = dict(
+    engine='E3-dev', category='fault_enumeration', design_ref='DESIGN.md 5/C17',
+    technique='exhaustive fault enumeration: every truncation offset and corrupted byte of a saved file on load, every position of an unstorable message and every failing write on save, with a charset probe after each call',
+    text='For 8 charsets x 9 texts x 9 text-carrying meta types the saved payload (decoded by the reference SMF decoder) must equal text.encode(charset) and load back unchanged. Then every place a load or save can fail is enumerated - each prefix of the file, each track byte corrupted, bad chunk names, the n-th message unstorable or unencodable for every n, the output file failing on its k-th write for every k - under the default ambient charset and inside an outer meta_charset block; after every call, succeeded or raised, the public MetaMessage text codec must behave as under the ambient charset.',
+    note='Charsets limited to eight; probing through MetaMessage.bytes()/from_bytes only.')
